@@ -179,7 +179,6 @@ type Server struct {
 	Name     string
 	Schema   string
 	version  string
-	autoStep int64 // auto_increment_increment of this server (0 = 1)
 
 	tables map[string]*Table
 	locks  map[string]*txState
@@ -211,21 +210,6 @@ func newServer(name, schema string) *Server {
 
 // SetVersion sets the answer of SELECT VERSION().
 func (s *Server) SetVersion(v string) { s.mu.Lock(); s.version = v; s.mu.Unlock() }
-
-// SetAutoIncStep sets auto_increment_increment (offset 1): generated keys are 1 + k*step, SHOW VARIABLES reports it.
-func (s *Server) SetAutoIncStep(n int64) { s.mu.Lock(); s.autoStep = n; s.mu.Unlock() }
-
-// nextAuto: the smallest value 1 + k*step that is >= from
-func (s *Server) nextAuto(from int64) int64 {
-	st := s.autoStep
-	if st <= 1 || from < 1 {
-		return from
-	}
-	if r := (from - 1) % st; r != 0 {
-		return from + st - r
-	}
-	return from
-}
 
 // now is a deterministic clock: 2024-01-01T00:00:00Z plus 1.000001 s per reading.
 func (s *Server) now() time.Time {
